@@ -4,6 +4,7 @@ package sched
 
 import (
 	"context"
+	"errors"
 	"fmt"
 	"io"
 	"strings"
@@ -27,6 +28,15 @@ type scn struct {
 	// prelude: the client has a history when the scenario starts — an earlier query on the
 	// same client that ended with a server exception ("exception") or well ("ok")
 	prelude string
+	// closeErr: the transport's Close tears the connection down but reports an error (as
+	// crypto/tls does when its close_notify cannot be written)
+	closeErr bool
+}
+
+func withCloseErr(s scn) scn {
+	s.name += "-close-reports-error"
+	s.closeErr = true
+	return s
 }
 
 // withHistory derives the scenario that runs s on a client with a history.
@@ -218,6 +228,9 @@ func body04(s scn, f fault, probe bool) Body {
 		if msg := c.Prelude(s.prelude); msg != "" {
 			return Outcome{Key: "C04/" + s.name + "/prelude-failed", Detail: msg}
 		}
+		if s.closeErr {
+			c.C.CloseErr = errors.New("simnet: close_notify could not be written")
+		}
 		fa := &failAt{}
 		var inj *Inject
 		switch f.kind {
@@ -347,7 +360,7 @@ func measure(s scn) (serverBytes, clientBytes, callbacks, termGate int, broken *
 
 // C04 — a failed query leaves the client closed or exactly at a packet boundary.
 func C04(c *vk.Ctx) {
-	c.Rule("scenarios {insert, streamed insert, LZ4/ZSTD inserts, insert whose input columns disagree on the row count (the sender fails inside encodeBlock), select, LZ4 select, select with logs/profile events, and insert / select on a client whose previous query ended with a server exception (thorough: or ended well)} x faults {server exception injected at every gate of the peer script, server stream cut (EOF and reset) after byte k, client write failing after byte k, callback j failing, unknown packet code / well-formed unexpected packet / undecodable block at every gate, the double faults caller-cancels + server exception and failing write + server exception at every gate, and a server exception (chain of two) that does not arrive whole: stream cut or server silent after every byte of it (quick: every 2nd / 5th byte), or with an undecodable body, at every gate} x all schedules of the sender, receiver, cancel-watch and peer threads (plus clock steps) up to the stated deviation bound; after Do returns the probe checks closed-or-boundary. distinct_nontrivial = executions (each is a distinct (scenario, fault, schedule) triple).")
+	c.Rule("scenarios {insert, streamed insert, LZ4/ZSTD inserts, insert whose input columns disagree on the row count (the sender fails inside encodeBlock), select, LZ4 select, select with logs/profile events, and insert / select on a client whose previous query ended with a server exception (thorough: or ended well), and select (thorough: and insert) on a transport whose Close reports an error} x faults {server exception injected at every gate of the peer script, server stream cut (EOF and reset) after byte k, client write failing after byte k, callback j failing, unknown packet code / well-formed unexpected packet / undecodable block at every gate, the double faults caller-cancels + server exception and failing write + server exception at every gate, and a server exception (chain of two) that does not arrive whole: stream cut or server silent after every byte of it (quick: every 2nd / 5th byte), or with an undecodable body, at every gate} x all schedules of the sender, receiver, cancel-watch and peer threads (plus clock steps) up to the stated deviation bound; after Do returns the probe checks closed-or-boundary. distinct_nontrivial = executions (each is a distinct (scenario, fault, schedule) triple).")
 	quick := c.Quick()
 	scs := append(scenarios(), badRows())
 	// the same on a client that already ran a query (non-initial client state)
@@ -357,6 +370,11 @@ func C04(c *vk.Ctx) {
 			if !quick {
 				scs = append(scs, withHistory(s, "ok"))
 			}
+		}
+	}
+	for _, s := range scenarios() {
+		if s.name == "select" || (s.name == "insert" && !quick) {
+			scs = append(scs, withCloseErr(s))
 		}
 	}
 	type job struct {
